@@ -211,12 +211,17 @@ int vp_case(Choice& c, Report& rep) {
     n_mode[pi.t.mode]++;
     // decoders
     HeapBuf<uint8_t> pkt((size_t)len); memcpy(pkt.p, out.data(), (size_t)len);
+    // the output buffer is NaN-poisoned before every call: "produces the requested durations" means every requested sample is written
+    for (size_t k = 0; k < (size_t)fs * ch; k++) dout.p[k] = std::nanf("");
     int dr = opus_decode_float(decA.p, pkt.p, len, dout.p, fs, 0);
     if (dr != fs) return rep.fail("c20:decode-duration", "decoder (packets as given) returned %d for frame %d (%d bytes, %d samples)", dr, i, len, fs);
+    if (!all_finite(dout.p, (size_t)fs * ch)) return rep.fail("c20:decoder-left-samples-unwritten", "decoder (packets as given): frame %d (%d bytes, %d samples x %d channels) returned %d but left samples unwritten / non-finite", i, len, fs, ch, dr);
     memcpy(outA.data() + (size_t)i * fs * ch, dout.p, sizeof(float) * (size_t)fs * ch);
+    for (size_t k = 0; k < (size_t)fs * ch; k++) dout.p[k] = std::nanf("");
     if (len <= 2) dr = opus_decode_float(decB.p, nullptr, 0, dout.p, fs, 0);
     else dr = opus_decode_float(decB.p, pkt.p, len, dout.p, fs, 0);
     if (dr != fs) return rep.fail("c20:decode-duration", "decoder (DTX packets as losses) returned %d for frame %d (%d bytes, %d samples)", dr, i, len, fs);
+    if (!all_finite(dout.p, (size_t)fs * ch)) return rep.fail("c20:decoder-left-samples-unwritten", "decoder (DTX packets as losses): frame %d (%d bytes, %d samples x %d channels) returned %d but left samples unwritten / non-finite", i, len, fs, ch, dr);
     memcpy(outB.data() + (size_t)i * fs * ch, dout.p, sizeof(float) * (size_t)fs * ch);
     rep.count(2);
   }
